@@ -130,7 +130,12 @@ class Engine:
         import copy
         idx = self.by_vendor[vendor]
         a = self.corpus[idx[ch.draw(len(idx), "sample")]]
-        mode = ch.weighted([(3, "fwd"), (3, "rev"), (2, "cross"), (2, "mutated"), (1, "renest")], "state-mode")
+        mode = ch.weighted([(3, "fwd"), (3, "rev"), (2, "cross"), (2, "mutated"), (1, "renest"), (1, "vlan-lines")], "state-mode")
+        if mode == "vlan-lines":
+            st = self._vlan_lines(ch, vendor, a)
+            if st is not None:
+                return st
+            mode = "fwd"
         if mode == "fwd":
             return a["name"] + " fwd", copy.deepcopy(a["old"]), copy.deepcopy(a["new"])
         if mode == "rev":
@@ -177,6 +182,62 @@ class Engine:
         if ch.draw(2, "mut-old") == 1:
             mutate(old, b["old"])
         return "%s mutated(+%s)" % (a["name"], b["name"]), old, new
+
+    def _vlan_lines(self, ch, vendor, sample):
+        """a shipped configuration plus an interface whose VLAN list spreads over several lines: some lines stay, others go,
+        come or change (the patch logic of such lists reads the lines that stay)"""
+        import copy
+        from collections import OrderedDict as odict
+        if vendor.startswith("huawei"):
+            head = ch.pick(["port trunk allow-pass vlan", "port hybrid tagged vlan", "port hybrid untagged vlan"], "vl-kind")
+            iface = "interface GE1/0/%d" % (1 + ch.draw(4, "vl-if"))
+
+            def lines(chunks):
+                return ["%s %s" % (head, " ".join("%d to %d" % (a, b) if b > a else "%d" % a for a, b in grp)) for grp in chunks]
+        elif vendor in ("cisco", "nexus"):
+            iface = "interface GigabitEthernet1/0/%d" % (1 + ch.draw(4, "vl-if"))
+
+            def lines(chunks):
+                out = []
+                for k, grp in enumerate(chunks):
+                    out.append("switchport trunk allowed vlan %s%s" % ("add " if k else "", ",".join(
+                        "%d-%d" % (a, b) if b > a else "%d" % a for a, b in grp)))
+                return out
+        else:
+            return None
+        # disjoint ranges, grouped into lines
+        nchunks = 3 + ch.draw(3, "vl-n")
+        groups, lo = [], 2
+        for _ in range(nchunks):
+            grp = []
+            for _ in range(1 + ch.draw(2, "vl-per-line")):
+                lo += 1 + ch.draw(9, "vl-gap")
+                hi = lo + ch.pick([0, 0, 3, 10], "vl-len")
+                grp.append((lo, hi))
+                lo = hi + 1
+            groups.append(grp)
+        keep = [ch.draw(4, "vl-fate") for _ in groups]     # 0 stays, 1 goes, 2 comes, 3 changes
+        keep[0] = 0
+        if all(k == 0 for k in keep):
+            keep[-1] = 1
+        old_g, new_g = [], []
+        for grp, k in zip(groups, keep):
+            if k in (0, 1, 3):
+                old_g.append(grp)
+            if k in (0, 2):
+                new_g.append(grp)
+            if k == 3:
+                a, b = grp[-1]
+                new_g.append(grp[:-1] + [(a, b + 1)])
+        trees = []
+        for base, gl in ((sample["old"], old_g), (sample["new"], new_g)):
+            t = copy.deepcopy(base)
+            blk = odict((x, odict()) for x in ["description vlan lines"] + lines(gl))
+            if ch.draw(3, "vl-extra") == 0:
+                blk["mtu 9000"] = odict()
+            t[iface] = blk
+            trees.append(t)
+        return sample["name"] + " +vlan-lines", trees[0], trees[1]
 
     # ------------------------------------------------------------------ one run
     def run(self, ch):
